@@ -599,6 +599,10 @@ func (s *loopSet) ifacePkgVar(t *loopTr, v *types.Var, at ast.Node) (string, boo
 		}
 		parts = append(parts, t.constLit(el, tv.Value, kString))
 	}
+	if v.Exported() {
+		// an exported table can be modified by any importing package (fourth audit, finding 2)
+		t.fail(at, "package variable %s is exported: other packages can modify it, so it is not a constant table", v.Name())
+	}
 	s.checkReadOnly(t, v, at)
 	s.varText[v] = fmt.Sprintf("/-- package variable `%s` of %s (an array of %d constant strings; never modified: every use in the package is `range %s`, `%s[i]` read or `len(%s)`) -/\ndef %s : List (List (BitVec 8)) := [%s]\n",
 		v.Name(), rel(s.p.dir), a.Len(), v.Name(), v.Name(), v.Name(), name, strings.Join(parts, ", "))
